@@ -1,14 +1,15 @@
 (* m_coll.ml — driver commands for the storage-backed collections (Collections.v; C05).
    The programs of Collections.v are executed on the extracted model of storage.rs (Storage.v), so
    the answer contains the EXACT record bytes and indexes.  Stateful.
-     coll new <mem|file> <vec_u64|vec_i64|vec_str|map_u64|map_str|graph>
+     coll new <mem|file> <vec_u64|vec_i64|vec_str|vec_val|vec_kv|map_u64|map_str|graph>
      coll op <op>
    vector ops:   (push x) (replace i x) (remove i) (swap i j) (resize n x) (reserve n) shrink (value i) values len
    map-data ops: (set_state i s) (set_key i k) (set_value i v) (set_len n) (resize c) (swap i j) shrink
                  (state i) (key i) (value i) caplen
    graph ops:    (set f i v) (get f i) grow shrink cap free_index node_count (set_node_count n)      f = from|to|from_meta|to_meta
    all kinds:    reload   opt reopen copy
-   values: u64 / i64 (two's complement) / state as hex numbers, strings as x<hex>.
+   values: u64 / i64 (two's complement) / state as hex numbers, strings as x<hex>, database values as in m_db.ml
+   ((i -5) (u ff) (f <bits>) (s x..) (b x..) (vi ..) (vu ..) (vf ..) (vs ..)), key-value pairs (kv <k> <v>).
    answer: <obs> | <handle> | [<index>:<bytes> ...]      (every live record of the storage) *)
 open Model
 open Util
@@ -25,7 +26,7 @@ let make_inst (ops : cdata store_ops) : inst =
     live = (fun () -> live_values ops !st) }
 
 type coll =
-  | VecU of cv_vec | VecI of cv_vec | VecS of cv_vec
+  | VecU of cv_vec | VecI of cv_vec | VecS of cv_vec | VecV of cv_vec | VecKV of cv_vec
   | MapU of cm_data | MapS of cm_data
   | Graph of cg_data
 
@@ -40,6 +41,34 @@ let two64 : n = n_of_hex "10000000000000000"
 let z_of_u (x : n) : z = u2z x
 let u_of_z (x : z) : n = z2u x
 let zi_of (s : sexp) : z = z_of_u (n_of s)
+
+(* database values: the text form of m_db.ml (which is compiled after this file) *)
+let zh_of (s : sexp) : z = match s with A h -> z_of_hex h | _ -> failwith "z"
+let dbv_of (s : sexp) : dbvalue = match s with
+  | L [A "b"; x] -> DBytes (b_of x)
+  | L [A "i"; x] -> DI64 (zh_of x)
+  | L [A "u"; A h] -> DU64 (n_of_hex h)
+  | L [A "f"; A h] -> DF64 (n_of_hex h)
+  | L [A "s"; x] -> DString (b_of x)
+  | L (A "vi" :: l) -> DVecI64 (List.map zh_of l)
+  | L (A "vu" :: l) -> DVecU64 (List.map n_of l)
+  | L (A "vf" :: l) -> DVecF64 (List.map n_of l)
+  | L (A "vs" :: l) -> DVecString (List.map b_of l)
+  | _ -> failwith ("bad value " ^ string_of_sexp s)
+let dbkv_of (s : sexp) = match s with
+  | L [A "kv"; k; v] -> (dbv_of k, dbv_of v)
+  | _ -> failwith "kv"
+let str_dbv (v : dbvalue) : string = match v with
+  | DBytes b -> "(b " ^ hex_of_bytes b ^ ")"
+  | DI64 z -> "(i " ^ hex_of_z z ^ ")"
+  | DU64 n -> "(u " ^ hex_of_n n ^ ")"
+  | DF64 n -> "(f " ^ hex_of_n n ^ ")"
+  | DString b -> "(s " ^ hex_of_bytes b ^ ")"
+  | DVecI64 l -> "(vi" ^ String.concat "" (List.map (fun z -> " " ^ hex_of_z z) l) ^ ")"
+  | DVecU64 l -> "(vu" ^ String.concat "" (List.map (fun n -> " " ^ hex_of_n n) l) ^ ")"
+  | DVecF64 l -> "(vf" ^ String.concat "" (List.map (fun n -> " " ^ hex_of_n n) l) ^ ")"
+  | DVecString l -> "(vs" ^ String.concat "" (List.map (fun b -> " " ^ hex_of_bytes b) l) ^ ")"
+let str_dbkv ((k, v) : dbvalue * dbvalue) = "(kv " ^ str_dbv k ^ " " ^ str_dbv v ^ ")"
 
 let str_serr = function
   | SeNotFound -> "NotFound" | SeOutOfBounds -> "OutOfBounds" | SeNotAllowed -> "NotAllowed" | SeNotEnoughData -> "NotEnoughData"
@@ -129,6 +158,8 @@ let handle (cmd : string) (args : sexp list) : string =
      | "vec_u64" -> (match i.run cv_new with CrOk h -> fin (VecU h) (str_vec h) | _ -> dead ())
      | "vec_i64" -> (match i.run cv_new with CrOk h -> fin (VecI h) (str_vec h) | _ -> dead ())
      | "vec_str" -> (match i.run cv_new with CrOk h -> fin (VecS h) (str_vec h) | _ -> dead ())
+     | "vec_val" -> (match i.run cv_new with CrOk h -> fin (VecV h) (str_vec h) | _ -> dead ())
+     | "vec_kv" -> (match i.run cv_new with CrOk h -> fin (VecKV h) (str_vec h) | _ -> dead ())
      | "map_u64" -> (match i.run (cm_new) with CrOk d -> fin (MapU d) (str_map d) | _ -> dead ())
      | "map_str" -> (match i.run (cm_new) with CrOk d -> fin (MapS d) (str_map d) | _ -> dead ())
      | "graph" -> (match i.run cg_new with CrOk g -> fin (Graph g) (str_graph g) | _ -> dead ())
@@ -149,6 +180,14 @@ let handle (cmd : string) (args : sexp list) : string =
         | VecS h ->
           (match i.run (cv_step ce_string h (vec_op b_of o)) with
            | CrOk (h', v) -> cur_coll := Some (VecS h'); out (vec_obs hex_of_bytes v) (str_vec h')
+           | r -> out (str_res (fun _ -> "") r) (str_vec h))
+        | VecV h ->
+          (match i.run (cv_step ce_dbvalue h (vec_op dbv_of o)) with
+           | CrOk (h', v) -> cur_coll := Some (VecV h'); out (vec_obs str_dbv v) (str_vec h')
+           | r -> out (str_res (fun _ -> "") r) (str_vec h))
+        | VecKV h ->
+          (match i.run (cv_step ce_dbkv h (vec_op dbkv_of o)) with
+           | CrOk (h', v) -> cur_coll := Some (VecKV h'); out (vec_obs str_dbkv v) (str_vec h')
            | r -> out (str_res (fun _ -> "") r) (str_vec h))
         | MapU d ->
           (match i.run (cm_step ce_u64 ce_u64 N0 N0 d (map_op n_of o)) with
